@@ -216,6 +216,15 @@ func genParserHistory(t *rapid.T, x *parserExec, o histOpts) {
 			}
 			data := src.next(n)
 			rs := genReaderScript(t, "rs", data, o.faults)
+			if rapid.IntRange(0, 7).Draw(t, "rsMulti") == 0 {
+				rs.Events, rs.Poll, rs.Piece = nil, 0, 0
+				for k := rapid.IntRange(1, 4).Draw(t, "rsParts"); k > 0; k-- {
+					rs.Multi = append(rs.Multi, MultiPart{
+						N:    genSize(t, "rsPartLen", len(data)+1, 0, 1, cc.BufferSize-x.buffered()),
+						Kind: rapid.SampledFrom([]string{"bytes", "limit", "plain", "bufio", "dataerr", "onebyte", "strings"}).Draw(t, "rsPartKind"),
+					})
+				}
+			}
 			before := len(x.fed)
 			x.step(POp{Op: "readfrom", R: &rs})
 			src.unread(n - (len(x.fed) - before))
@@ -240,7 +249,8 @@ func genParserHistory(t *rapid.T, x *parserExec, o histOpts) {
 				n = minInt(n, rapid.IntRange(0, 6).Draw(t, "resetLenTiny"))
 				lastReset = n
 			}
-			x.step(POp{Op: "reset", Data: src.next(n), Cap: cp, Fill: rapid.SampledFrom([]byte{0, 0xa5, 'a', 0xff}).Draw(t, "resetFill")})
+			x.step(POp{Op: "reset", Data: src.next(n), Cap: cp, Fill: rapid.SampledFrom([]byte{0, 0xa5, 'a', 0xff}).Draw(t, "resetFill"),
+				Reuse: rapid.IntRange(0, 3).Draw(t, "resetReuse") == 0})
 		case 13: // macro: Reset(d1); [parse]; Reset(d2) of nearly the same length; Parse
 			// The buffer copies or adopts d1 (depending on its spare
 			// capacity) and meets d2 with the array it got for d1.
@@ -261,7 +271,10 @@ func genParserHistory(t *rapid.T, x *parserExec, o histOpts) {
 				}
 			}
 			n2 := minInt(maxInt(n1+rapid.IntRange(-8, 8).Draw(t, "rp2By"), 0), cc.BufferSize)
-			x.step(POp{Op: "reset", Data: src.next(n2), Cap: rapid.SampledFrom(caps).Draw(t, "rp2Cap")})
+			if rapid.IntRange(0, 2).Draw(t, "rp2Same") == 0 {
+				n2 = n1
+			}
+			x.step(POp{Op: "reset", Data: src.next(n2), Cap: rapid.SampledFrom(caps).Draw(t, "rp2Cap"), Reuse: rapid.Bool().Draw(t, "rp2Reuse")})
 			lastReset = n2
 			x.step(POp{Op: "parse", Flags: genFlags(t, o)})
 		case 9:
